@@ -695,6 +695,48 @@ def rule_r5(ctx):
     return rr
 
 
+def rule_r6(ctx):
+    """Lowered expressions are opaque until their owner has completed them.  break/continue/return
+    are lowered to a List whose element list is REGISTERED with the enclosing loop/function, which
+    appends the flag assignment to it later (when the loop/function itself is lowered).  Code that
+    receives lowered expressions (the expression wrappers, _iter_branch, the statement templates)
+    may place them, but must not look inside them: a copy of `node.elts` taken now misses what is
+    appended later."""
+    from ..extract import expr_wrapper_paths
+    from .common import all_templates
+
+    rr = RuleResult("C05-R6", "lowered expressions are placed, never inspected (their lists are completed later by the owner)")
+    rr.floor = 20
+    seen = set()
+
+    def look(origin, pr):
+        rr.instances += 1
+        for e in getattr(pr, "effects", []) or []:
+            if e.get("kind") == "inspect-lowered":
+                key = (origin.split(".")[0], e["attr"])
+                if key in seen:
+                    continue
+                seen.add(key)
+                site = e.get("site")
+                where = f"{site[0]}:{site[1]}" if isinstance(site, tuple) else str(site)
+                rr.fail(
+                    f"C05-R6|{origin.split('.')[0]}|inspects-lowered|{e['attr']}",
+                    f"{origin} ({where}): reads `.{e['attr']}` of an expression that a statement was lowered to. The element list of a lowered break/continue/return is completed LATER by the enclosing loop/function (the flag assignment is appended when the loop is lowered): elements copied now miss it, the flag is never raised and the statements after `if c: log(); continue` run although the source skipped them",
+                    where=where, what=f"{origin}|{e['attr']}",
+                )
+
+    for origin, kind, pr, tmpl in all_templates(ctx):
+        if pr is not None:
+            look(origin, pr)
+    for pr in cached(ctx, "expr_wrapper_paths", lambda: expr_wrapper_paths(ctx.tmpl)):
+        look("get_expr_wrapper", pr)
+    for pr in cached(ctx, "iter_branch_paths", lambda: iter_branch_paths(ctx)):
+        look("_iter_branch", pr)
+    if not seen:
+        rr.ok("opaque", sample={"rule": "C05-R6", "paths_examined": rr.instances, "verdict": "no read of a field of a lowered expression"})
+    return rr
+
+
 def rule_siblings(ctx):
     """The property quantifies over the option combinations: the sibling templates of an option
     branch must be equivalent (rule C01-R2, restricted here to the control-flow statements)."""
@@ -703,4 +745,4 @@ def rule_siblings(ctx):
     return rule_r2(ctx)
 
 
-RULES = [("C01-R2", rule_siblings), ("C05-R1", rule_r1), ("C05-R2", rule_r23), ("C05-R3", rule_r3_wrapper), ("C05-R4", rule_r4), ("C05-R5", rule_r5), ("C05-IB", rule_ib)]
+RULES = [("C01-R2", rule_siblings), ("C05-R1", rule_r1), ("C05-R2", rule_r23), ("C05-R3", rule_r3_wrapper), ("C05-R4", rule_r4), ("C05-R5", rule_r5), ("C05-R6", rule_r6), ("C05-IB", rule_ib)]
